@@ -408,7 +408,7 @@ func runC18_3(c *core.Ctx) {
 					if flow.IsNil(f.Info, e.Cond) {
 						return s &^ fTaint
 					}
-					if o := flow.ObjOf(f.Info, e.Cond); o != nil && o.Name() == "EAGAIN" {
+					if o := flow.ObjOf(f.Info, e.Cond); o != nil && nameOf(o) == "EAGAIN" {
 						return s | fAgain
 					}
 				}
@@ -707,7 +707,7 @@ func runC18_7(c *core.Ctx) {
 				return in
 			}
 			if e.Tag != nil {
-				if o := flow.ObjOf(f.Info, e.Cond); o != nil && o.Pkg() != nil && o.Pkg().Path() == unixPkg && o.Name() == "EAGAIN" && isErrorType(f.Info.TypeOf(e.Tag)) {
+				if o := flow.ObjOf(f.Info, e.Cond); o != nil && o.Pkg() != nil && o.Pkg().Path() == unixPkg && nameOf(o) == "EAGAIN" && isErrorType(f.Info.TypeOf(e.Tag)) {
 					in |= fAgain
 				}
 			} else if isErrnoCmp(f, e.Cond, "EAGAIN") {
